@@ -966,6 +966,14 @@ class Linter:
                     break
         except SQLTemplaterError as templater_err:
             # Fatal templating error. Capture it and don't generate a variant.
+            # NOTE: Not all templaters can say where the failure happened. The
+            # defaults (line 0, position 0) aren't a position in the file (and a
+            # violation on line 0 can't be ignored with "noqa"), so fall back to
+            # the start of the file, or of the line if only that is known.
+            if templater_err.line_no < 1:
+                templater_err.line_no = 1
+            if templater_err.line_pos < 1:
+                templater_err.line_pos = 1
             templater_violations.append(templater_err)
         except SQLFluffSkipFile as skip_file_err:  # pragma: no cover
             linter_logger.warning(str(skip_file_err))
